@@ -516,6 +516,11 @@ func genPipe(r *rand.Rand) WL {
 		w.Writers = append(w.Writers, 1+r.IntN(5))
 	}
 	w.Reader = []string{"eager", "late", "late", "stop"}[r.IntN(4)]
+	if r.IntN(25) == 0 {
+		// a long backlog: thousands of values queued before the reader takes the first one
+		w.Writers = []int{4000 + r.IntN(3000)}
+		w.Reader = "late"
+	}
 	w.CloseOut = r.IntN(4) != 0
 	if w.Reader == "stop" {
 		w.StopAt = r.IntN(4)
